@@ -309,6 +309,9 @@ func (r *Runner) monC05(s *Step, rep *Reply) {
 			r.Count("c05_cache_unpinned_runtime_pinned")
 		}
 		if cr.Shares != sh.Shares {
+			if r.Restarts > 0 && r.cpuOptOut(c) {
+				unmanaged++ // cpu.shares is set together with the cpuset, only for containers whose CPU pinning is managed
+			}
 			diffs = append(diffs, fmt.Sprintf("shares cache=%d runtime=%d", cr.Shares, sh.Shares))
 		}
 		if cr.Quota != sh.Quota {
@@ -337,6 +340,7 @@ func (r *Runner) monC05(s *Step, rep *Reply) {
 				// newest file can be older than what the runtime was last told; for a field the plugin does not manage for
 				// this container (opted out, pinning disabled by the configuration) nothing re-decides it after a restart
 				sg += ":unmanaged-field-after-restart"
+				r.LaggingCache = true
 			}
 			r.Violate("C05", "view-mismatch", sg, "after %s: container %s (%s): %s", how, c.Key, c.State, strings.Join(diffs, "; "))
 		}
